@@ -367,7 +367,7 @@ def unique_inv(S):
 class Unique1(Contract):
     """unique(key): keeps exactly the first item of every distinct key value, in order."""
     file, qualname, prop, variant = F, "ListOfDicts.unique", "C15", "one key"
-    loops = {("ListOfDicts.unique", 0): LoopSpec(unique_inv)}
+    loops = {("ListOfDicts.unique", 0): LoopSpec(unique_inv, kinds={"found_ids": "set"})}
 
     def setup(self, cx):
         self_ = cx.lod("self")
